@@ -13,7 +13,7 @@ RULE = ("cases = calls of distance / distance_fast / dtw_cc.distance(_ndim) / wa
         "non-trivial = unbounded distance finite, non-zero, both lengths >= 2.")
 ASSUME = ["thresholds are kept outside a 1e-6 relative neighbourhood of the unbounded distance",
           "use_pruning where the Euclidean distance is not a valid upper bound (max_step; penalty with unequal "
-          "lengths) is judged too and is known finding KF-C03-1", "C vs C and Python vs Python comparisons (no cross-engine oracle)"]
+          "lengths) is judged too (repaired defect 11c8f86, formerly known finding KF-C03-1)", "C vs C and Python vs Python comparisons (no cross-engine oracle)"]
 def _own_suite(tier, seed, scratch):
     """thorough: the repository's own unedited tests are one more workload under this property's monitors"""
     if tier != "thorough":
